@@ -25,7 +25,8 @@ InputsFor(s) ==
     \cup (IF n > 0 THEN {DPopFront, DPopBack} ELSE {})
     \cup {DAppend(News(k)) : k \in 0..3} \cup {DReset(News(k)) : k \in 0..3}
     \cup {DInsert(i, 9) : i \in 0..n} \cup {DSet(i, 9) : i \in 0..(n - 1)}
-    \cup {DRemove(i) : i \in 0..(n - 1)} \cup {DTruncate(i) : i \in 0..(n + 1)}
+    \cup {DRemove(i) : i \in 0..(n - 1)}
+    \cup {DTruncate(i) : i \in 0..(n - 1)}   \* an ObservableVector (and every adapter) only emits a Truncate that really shortens
 
 DiffCases == {<<k, n, p, d>> : k \in Kinds3, n \in 0..MaxN, p \in 0..MaxP, d \in UNION {InputsFor(Src(m)) : m \in 0..MaxN}}
 ValidDiffCase(c) == c[4] \in InputsFor(Src(c[2]))
